@@ -165,13 +165,15 @@ def faults_leg(ck, tier):
     dh_tables = rating.tables()['dheat']
     arch = [dict(moduli=[3072], style='openssh', openssh=True, gex=[GEX256]), dict(moduli=[4096], style='openssh', openssh=True, gex=[GEX1, GEX256]),
             dict(moduli=[4096], style='strict', openssh=False, gex=[GEX256]), dict(moduli=[1024, 2048], style='roundup', openssh=False, gex=[GEX1, GEX256]),
-            dict(moduli=[2048], style='openssh', openssh=True, gex=[GEX256])]
+            dict(moduli=[2048], style='openssh', openssh=True, gex=[GEX256]), dict(moduli=[768, 1024], style='strict', openssh=False, gex=[GEX256])]
 
     def truncated(d):
         # a correctly framed type-31 packet whose payload announces a 257-byte modulus and carries 100 bytes of it
         return [wire.frame(bytes([31]) + wire.u32(257) + b'\x00' + b'\xc3' * 99), fakenet.EOF]
     kinds = {'truncated-group': truncated, 'closed': lambda d: [fakenet.EOF], 'withheld': lambda d: [fakenet.STALL],
-             'other-message': lambda d: [wire.frame(bytes([3]) + wire.u32(0)), fakenet.EOF]}
+             'other-message': lambda d: [wire.frame(bytes([3]) + wire.u32(0)), fakenet.EOF],
+             # a whole, well-formed group message whose modulus admits no exponent (p = 1): that probe yields nothing - and leaves nothing behind for the next one
+             'degenerate-group': lambda d: [wire.frame(bytes([31]) + wire.mpint(1) + wire.mpint(2))]}
     scs, meta = [], []
     for ai, a in enumerate(arch):
         for kname, fn in sorted(kinds.items()):
